@@ -23,7 +23,7 @@ Definition gen_frame {A} (si : option streaminfo) (pre_check : header -> res uni
     end
   end.
 
-Lemma dec_frame_gen p si chk bytes : dec_frame p si chk bytes = gen_frame si chk (dec_subframes p) bytes.
+Lemma dec_frame_gen si chk bytes : dec_frame si chk bytes = gen_frame si chk dec_subframes bytes.
 Proof. reflexivity. Qed.
 
 Local Opaque wr wr_unary cont_bytes.
@@ -107,7 +107,7 @@ Qed.
 Theorem dec_frame_agree si chk f bytes rest :
   wf_frame si f = true -> spec_frame f = true -> write_frame f = Some bytes ->
   chk (f_hdr f) = Ok tt ->
-  dec_frame Release si chk (bytes ++ rest) = Ok (f_hdr f, sem_frame f, rest).
+  dec_frame si chk (bytes ++ rest) = Ok (f_hdr f, sem_frame f, rest).
 Proof.
   unfold wf_frame, spec_frame. intros Hwf Hsp Hw Hchk.
   apply andb_prop in Hwf. destruct Hwf as [Hwf Hck].
